@@ -52,3 +52,11 @@ Theorem address_criterion_is_prefix_equality : forall ru r m bits,
   ClassSpec.addr_criterion ru r = true <-> (forall i, (i < bits)%N -> MaskSpec.abit (raddr r) i = MaskSpec.abit m i).
 Proof. exact ClassSpec.address_criterion_is_prefix_equality. Qed.
 Print Assumptions address_criterion_is_prefix_equality.
+Require D30.
+
+(* OPEN FINDING D30 (known_findings.txt; not repaired): the xreply_ok criterion reads a SLOT bit; on the history of D30.v client 5 is
+   accepted with the class of rule 10-viad (xreply_ok d.svc) although d.svc never answered - it inherited the bit of a.svc, whose
+   released slot it took over.  The statement is the model's run, which is also the daemon's. *)
+Theorem xreply_ok_fails_across_a_reused_slot_refuted : D30.d30_statement.
+Proof. exact D30.d30_refutes. Qed.
+Print Assumptions xreply_ok_fails_across_a_reused_slot_refuted.
